@@ -303,6 +303,20 @@ def _v_no_backjump(tree):
     M.replace_stmt(g, lambda s: isinstance(s, ast.Expr) and M.src_is(s.value, "unassign_to(bt_level)"), [])
 
 
+def _v_heap_rebuilt_on_rescale(tree):
+    g = M.find_func(tree, "solve_sat.decay_activity")
+    g.body = g.body + M.stmts("if activity_inc > 1e100:\n    for v in range(1, n_vars + 1):\n        activity[v] *= 1e-100\n    activity_inc *= 1e-100\n    var_heap[:] = [(-activity[v], v) for v in range(1, n_vars + 1) if vals[v] == UNDEF]\n    heapify(var_heap)")
+
+
+def _v_assumptions_after_queue(tree):
+    g = M.find_func(tree, "solve_sat.propagate")
+    blk = [s for s in g.body if isinstance(s, ast.If) and M.src_has(s.test, "len(trail_lim) == 0")]
+    if not blk:
+        raise M.Skip("assumption block not found")
+    g.body.remove(blk[0])
+    g.body.insert(len(g.body) - 1, blk[0])
+
+
 def _v_flag_kept_on_skip(tree):
     g = M.find_func(tree, "solve_sat.pick_var")
     M.replace_stmt(g, lambda s: M.src_is(s, "in_heap[var] = False"), [])
@@ -352,6 +366,8 @@ VARIANTS = [
     M.Variant("propagation treats a clause as unit although a replacement watch was found", SAT, _v_bcp_unit_without_search, "C01-O10"),
     M.Variant("conflict analysis puts true literals into the learned clause", SAT, _v_analysis_keeps_true_literal, "C01-O11"),
     M.Variant("driver records the backjump level without undoing the trail", SAT, _v_no_backjump, "C01-O12"),
+    M.Variant("activity rescale rebuilds the heap from the unassigned variables (seed C01-G)", SAT, _v_heap_rebuilt_on_rescale, "C01-O7"),
+    M.Variant("assumptions asserted after the propagation queue was processed (seed C01-H)", SAT, _v_assumptions_after_queue, "C01-O10"),
     M.Variant("twin: reformat only", SAT, _t_reformat, None),
     M.Variant("twin: rename locals of the backtrack routine", SAT, _t_rename, None),
     M.Variant("twin: backtrack written as pop-and-cut loop", SAT, _t_pop_form, None),
